@@ -27,6 +27,27 @@ func (q Quantizer) Validate() error {
 	}
 }
 
+// Checks the quantizer against the vector index it is attached to. The product
+// quantizer splits vectors into equal parts and sums part-wise distances, the
+// vector store refuses anything else when the index is first used.
+func (q Quantizer) ValidateFor(vectorSize uint, distanceMetric string) error {
+	if q.Type != QuantizerProduct || q.Product == nil {
+		return nil
+	}
+	switch distanceMetric {
+	case DistanceHamming, DistanceJaccard:
+		// Binary quantization takes over for these metrics
+		return nil
+	case DistanceEuclidean, DistanceCosine, DistanceDot:
+	default:
+		return fmt.Errorf("distance metric %s not supported for product quantization", distanceMetric)
+	}
+	if vectorSize%uint(q.Product.NumSubVectors) != 0 {
+		return fmt.Errorf("vector size %d must be divisible by numSubVectors %d", vectorSize, q.Product.NumSubVectors)
+	}
+	return nil
+}
+
 type BinaryQuantizerParamaters struct {
 	// The threshold value for the binary quantizer. It is a pointer to distinguish
 	// between 0 value vs not set.
